@@ -111,3 +111,6 @@ package respondent
 //@   ensures !cl ==> cast("*context", result0).bestEffort == s.defCtx.bestEffort
 //@   ensures !cl ==> cast("*context", result0).recvExpire == s.defCtx.recvExpire
 //@   ensures !cl ==> cast("*context", result0).sendExpire == s.defCtx.sendExpire
+//@
+//@ func (*socket).AddPipe
+//@   before call:SetPrivate#1 assert cap(p.sendQ) == s.sendQLen
